@@ -27,7 +27,7 @@ def main():
             "thorough_cmd": f"./vcheck {pid} --tier thorough",
             "evidence_file": f"/verif/evidence/{pid}.json",
             "replay_cmd_template": "./vcheck replay {path}",
-            "engine": "E2" if pid in ("C18",) else "E1",
+            "engine": "E2" if pid in ("C18", "C33") else "E1",
             "level_claimed": {"category": cat, "text": text, "design_ref": ref},
             "level_note": note,
             "technique": tech,
@@ -48,7 +48,7 @@ def main():
             "add_only": True,
         },
         "engines": [
-            {"name": "E1", "path": "verif/jaxsmt.py", "serves_properties": [p for p in sorted(C) if p != "C18"],
+            {"name": "E1", "path": "verif/jaxsmt.py", "serves_properties": [p for p in sorted(C) if p not in ("C18", "C33")],
              "kind_free_text": "symbolic execution of jaxprs (the IR the real GenJAX code leaves behind under jax.make_jaxpr) into z3 terms; negated property decided by z3; counterexamples replayed on the real code"},
             {"name": "E2", "path": "verif/pysel2smt.py", "serves_properties": [p for p in sorted(C) if p in ("C18", "C33")],
              "kind_free_text": "Python-AST -> z3 recursive-function translation of the Selection dataclasses from their current source"},
